@@ -335,6 +335,24 @@ func step(w []string, line string) string {
 				out = append(out, p)
 			}
 			return w[1] + "<" + strings.Join(out, "|")
+		case "ckey":
+			// ckey <parentKey> <channel> <access> <expires> <newKeyName>: keygen.Service.CreateKey called
+			// directly, as the HTTP keygen page does (no request handler in front of it)
+			exp, _ := strconv.ParseInt(w[4], 10, 64)
+			ks, kerr := b.Svc.VerifC12Keygen().CreateKey(keyStr(w[1]), string(vlib.UnHex(w[2])), uint8(u(w[3])), time.Unix(exp, 0))
+			if kerr != nil {
+				return fmt.Sprintf("ckey:status=%d", kerr.Status)
+			}
+			keys[w[5]] = ks
+			k, err := b.Cipher.DecryptKey([]byte(ks))
+			if err != nil {
+				return "ckey:status=200:undecryptable-key"
+			}
+			path := uint32(k[12])<<16 | uint32(k[13])<<8 | uint32(k[14])
+			hash := uint32(k[16])<<24 | uint32(k[17])<<16 | uint32(k[18])<<8 | uint32(k[19])
+			kexp := int64(uint32(k[20])<<24 | uint32(k[21])<<16 | uint32(k[22])<<8 | uint32(k[23]))
+			return fmt.Sprintf("ckey:status=200:key=%s:master=%d:contract=%d:sign=%d:perms=%d:path=%d:hash=%d:expires=%d",
+				vlib.Hex([]byte(ks)), k.Master(), k.Contract(), k.Signature(), k.Permissions(), path, hash, kexp)
 		case "saltspread":
 			// saltspread <client> <parentKey> <n>: n keys minted from one master key must not all
 			// carry the same salt (the salt is what ties the cipher blocks / keystream to one key)
